@@ -149,7 +149,7 @@ func RunC12(tier string) int {
 		var jobs []uj
 		for i := range archives {
 			for c := 0; c < full[i].GzLen; c++ {
-				jobs = append(jobs, uj{i, c, "eof", 0}, uj{i, c, "err", 0})
+				jobs = append(jobs, uj{i, c, "eof", 0}, uj{i, c, "err", 0}, uj{i, c, "wrapeof", 0})
 				if thorough {
 					jobs = append(jobs, uj{i, c, "err", 1})
 				}
@@ -356,7 +356,7 @@ func RunC12(tier string) int {
 	rep.States = rep.Evaluations
 	rep.Transitions = rep.Evaluations
 	rep.Extra["parts"] = parts
-	rep.Rule = "E2, one deviation at a time: Pack on 6 trees × {deref} with the writer failing at EVERY byte offset (plain and short write); Unpack on every archive of <=2 (thorough 3) entries with the reader ending/failing at EVERY byte offset (thorough also 1-byte reads); builder: every callback (fetch, versions, source address, finder) of every error-free world (<=2 Adds, <=1/2 edges) is a choice point {ok, error; finders: error diag, warning diag, error diag with file ranges}, all single (thorough: double) deviations; every world of the same enumeration whose analysis cannot succeed (escaping local dependency, unsatisfiable constraint) is built fault-free and must report an error; at every callback boundary the target directory is copied and opened (crash points). Non-trivial = the injected fault was reached; distinct by (position, outcome)."
+	rep.Rule = "E2, one deviation at a time: Pack on 6 trees × {deref} with the writer failing at EVERY byte offset (plain and short write); Unpack on every archive of <=2 (thorough 3) entries with the reader ending/failing (plain error, and an error that wraps io.EOF) at EVERY byte offset (thorough also 1-byte reads); builder: every callback (fetch, versions, source address, finder) of every error-free world (<=2 Adds, <=1/2 edges) is a choice point {ok, error; finders: error diag, warning diag, error diag with file ranges}, all single (thorough: double) deviations; every world of the same enumeration whose analysis cannot succeed (escaping local dependency, unsatisfiable constraint) is built fault-free and must report an error; at every callback boundary the target directory is copied and opened (crash points). Non-trivial = the injected fault was reached; distinct by (position, outcome)."
 	rep.Assumptions = []string{"file-system faults inside Unpack/Builder are not injected (os is not behind a seam)", "a fault placed after the last byte the tar reader consumes is legitimately invisible"}
 	return rep.Finish()
 }
